@@ -716,10 +716,10 @@ impl Session {
     }
 
     fn pid(&self) -> i32 {
-        (self.server as i32 + 1) * 100_000 + self.conn as i32
+        pid_for(self.server, self.conn)
     }
     fn key(&self) -> i32 {
-        (self.conn as i32).wrapping_mul(0x9E37_79B1u32 as i32) ^ 0x5bd1_e995
+        key_for(self.conn)
     }
 
     // -------------------------------------------------------------------------------- dispatch
@@ -1610,4 +1610,12 @@ pub fn is_pgcat_own_query(sql: &str) -> bool {
 /// Summaries used by several oracles.
 pub fn conn_events(log: &[Event], conn: u64) -> Vec<&Event> {
     log.iter().filter(|e| e.conn == conn).collect()
+}
+
+/// BackendKeyData the mock hands out for a session (deterministic, so oracles can recompute it).
+pub fn pid_for(server: usize, conn: u64) -> i32 {
+    (server as i32 + 1) * 100_000 + conn as i32
+}
+pub fn key_for(conn: u64) -> i32 {
+    (conn as i32).wrapping_mul(0x9E37_79B1u32 as i32) ^ 0x5bd1_e995
 }
